@@ -20,7 +20,7 @@ RULE = ("real SerialGateway / TCPGateway / AsyncSerialGateway / AsyncTCPGateway 
         "distinct = distinct run digests")
 TIERS = {
     "quick": {"runs": 1600, "max_wall": 240, "minimise_s": 25, "chunk": 50},
-    "thorough": {"runs": 120000, "max_wall": 3000, "minimise_s": 60, "chunk": 200},
+    "thorough": {"runs": 40000, "max_wall": 3000, "minimise_s": 60, "chunk": 200},
 }
 FAULT_KINDS = ["connect refused", "connect unreachable", "connect timeout", "read error", "write error", "peer close", "peer reset",
                "user disconnect", "stop", "probe answer latency", "probe silence"]
